@@ -90,12 +90,16 @@ def demos():
         print("binding %-58s %s" % (name, "ok" if ok else "FAILED: got %s, want %s" % (got, want)))
         bad += 0 if ok else 1
     # C04: scheduler consumes recorded outputs
-    circ = [{"id": 1, "wires": [0], "marked": False}, {"id": 2, "wires": [0, 1], "marked": True}, {"id": 3, "wires": [2], "marked": False}]
-    base = {"circ": circ, "kind": "topo", "a": 0, "b": 0, "merged": []}
+    circ = [{"id": 1, "wires": [0], "marked": False, "opt": []}, {"id": 2, "wires": [0, 1], "marked": True, "opt": [[1, 2]]},
+            {"id": 3, "wires": [2], "marked": False, "opt": []}]
+    base = {"circ": circ, "kind": "topo", "a": 0, "b": 0, "merged": [], "mergedopt": []}
     expect("TraceOrder: legal / swapped dependent / dropped / marked in A",
            _verdicts("TraceOrder", [dict(base, out=[3, 1, 2]), dict(base, out=[2, 1, 3]), dict(base, out=[1, 2]),
                                     dict(base, kind="group", out=[2, 1, 3], a=1, b=1)]),
            ["accepted", "DependencyOrder", "NotSameCommands", "DependencyOrder"])
+    gbs = dict(base, kind="gbs", out=[1, 3, 2], a=2, b=1, merged=[0, 1])
+    expect("TraceOrder (GBS): options kept / post-selection value lost",
+           _verdicts("TraceOrder", [dict(gbs, mergedopt=[[0, 0], [1, 2]]), dict(gbs, mergedopt=[[0, 0], [1, 0]])]), ["accepted", "GBSOptions"])
     expect("TraceOrder: marked command in the leading part", _verdicts("TraceOrder", [dict(base, kind="group", out=[3, 1, 2], a=3, b=0)]), ["MarkedOutsideB"])
     # C03/C11: denotation of rewrites
     r1 = {"name": "Rgate", "p": [A345], "modes": [0], "dag": False}
